@@ -74,6 +74,10 @@ func shapes(thorough bool) []Shape {
 						b.muts = muts
 					}
 					out = append(out, Shape{Backend: be, Pessimistic: pess, Async: m[0], OnePC: m[1], Muts: b.muts, Splits: b.splits, Pre: b.pre})
+					if pess && (bi == 0 || (thorough && bi == 4)) {
+						// the same shape after a LockKeys statement of the transaction has failed
+						out = append(out, Shape{Backend: be, Pessimistic: pess, Async: m[0], OnePC: m[1], Muts: b.muts, Splits: b.splits, Pre: b.pre, FailedLock: true})
+					}
 					if be == uni.Uni && m[0] && (bi == 0 || bi == 2 || bi == 3 || thorough) {
 						// the same shape when the store refuses async commit / 1PC (fallback to 2PC after the prewrite)
 						out = append(out, Shape{Backend: be, Pessimistic: pess, Async: m[0], OnePC: m[1], Muts: b.muts, Splits: b.splits, Pre: b.pre, Fallback: true})
